@@ -25,11 +25,11 @@ mod verif_c04 {
     }
 
     #[kani::proof]
-    #[kani::unwind(12)]
+    #[kani::unwind(8)]
     fn total_borrowed() {
-        let b: [u8; 8] = kani::any();
+        let b: [u8; 6] = kani::any();
         let l: usize = kani::any();
-        kani::assume(l <= 8);
+        kani::assume(l <= 6);
         let inp = &b[..l];
         if let Ok((v, rest)) = take_from_bytes::<PB>(inp) {
             assert!(inside(inp, v.s.as_ptr(), v.s.len()), "borrowed str is not inside the input");
